@@ -32,7 +32,23 @@ Ltac fin :=
   let E := fresh "E" in
   intros E; try discriminate E; inversion E; subst; clear E;
   cbn [dsl_inv opt_all is_none is_some negb andb orb len_group_ok option_map] in *;
+  bdestr;
+  repeat match goal with
+         | H : is_some ?x = false |- _ => is_var x; destruct x; [discriminate H | clear H]
+         | H : is_some ?x = true |- _ => is_var x; destruct x; [clear H | discriminate H]
+         end;
+  cbn [dsl_inv opt_all is_none is_some negb andb orb len_group_ok option_map] in *;
+  rewrite ?andb_true_r in *;
   bdestr; rw_conds; cbn [negb andb orb]; auto.
+
+Ltac nones :=
+  repeat match goal with
+         | H : _ || _ = false |- _ => apply orb_false_iff in H; destruct H
+         | H : is_some ?x = false |- _ => is_var x; destruct x; [discriminate H | clear H]
+         end.
+Ltac dall2 :=
+  repeat (cbn [bind is_some is_none negb orb andb a_int a_float a_str a_pat a_ell a_nil a_rawstr option_map];
+          rw_views; try dstep).
 
 (* ------------------------------------------------------------------------------------ *)
 (* the dict loop                                                                         *)
@@ -241,23 +257,23 @@ Proof.
   all: unfold args_inv in Hargs; cbn [forallb] in Hargs.
   (* scalars and str *)
   all: try (unfold bool_call, int_call, float_call, str_call, bytes_call, uuid_call, datetime_call,
-            date_call; unfold_decl; unfold bind; dall; fin; fail).
+            date_call; unfold_decl; unfold bind, option_map; dall2; fin; fail).
   - (* list call *)
     unfold list_call, dE.
     assert (Ha : arg_inv a = true) by (bdestr; assumption).
     destruct a as [v0|t0| |l0|]; cbn [a_list]; try discriminate.
     + destruct v0 as [| | | | | | | | |l0| | | |]; try discriminate.
       dall; try discriminate. destruct (elems_loop _ _ _) as [es'| |] eqn:El; cbn [bind]; try discriminate.
-      destruct (two_ells es') eqn:E2; [discriminate|]. intros E; inversion E; subst; clear E.
+      destruct (two_ells es') eqn:E2; [discriminate|]. intros E; inversion E; subst; clear E. nones.
       destruct (elems_loop_spec _ _ _ _ El) as (Hl & Hp & Hi).
       cbn [dsl_inv is_some is_none negb andb len_group_ok orb].
       unfold elems_ok, list_lens_ok. cbn [opt_all]. rewrite map_length in Hl, Hp. rewrite Hl, Hp, E2.
       fold (elems_inv es'). rewrite Hi; [reflexivity|].
       apply (a_list_inv (AVal (VList l0))); auto.
-    + dall; try discriminate. intros E; inversion E; subst; clear E.
+    + dall; try discriminate. intros E; inversion E; subst; clear E. nones.
       cbn [dsl_inv is_some is_none negb andb len_group_ok orb]. exact Ha.
     + dall; try discriminate. destruct (elems_loop _ _ _) as [es'| |] eqn:El; cbn [bind]; try discriminate.
-      destruct (two_ells es') eqn:E2; [discriminate|]. intros E; inversion E; subst; clear E.
+      destruct (two_ells es') eqn:E2; [discriminate|]. intros E; inversion E; subst; clear E. nones.
       destruct (elems_loop_spec _ _ _ _ El) as (Hl & Hp & Hi).
       cbn [dsl_inv is_some is_none negb andb len_group_ok orb].
       unfold elems_ok, list_lens_ok. cbn [opt_all]. rewrite Hl, Hp, E2.
@@ -270,7 +286,7 @@ Proof.
       cbn [negb andb]; auto.
   - (* dict *)
     unfold dict_call, dE. destruct (a_dict a) as [items|] eqn:Ea; [|discriminate].
-    destruct (is_some ks); [discriminate|].
+    destruct ks as [k0|]; cbn [is_some is_none negb]; [discriminate|].
     destruct (dict_loop items []) as [l| |] eqn:El; cbn [bind]; try discriminate.
     intros E; inversion E; subst; clear E.
     assert (Hd : dents_ok l = true).
@@ -278,18 +294,269 @@ Proof.
     unfold dents_ok in Hd. cbn [dsl_inv]. exact Hd.
   - (* any *)
     unfold any_call, dE. destruct (all_schemas [a]) as [l|] eqn:Ea; [|discriminate].
-    destruct (is_some ts); [discriminate|]. intros E; inversion E; subst; clear E.
+    destruct ts as [t0|]; cbn [is_some is_none negb]; [discriminate|]. intros E; inversion E; subst; clear E.
     destruct (all_schemas_inv [a] l) as [Hi Hl]; auto.
     destruct (flat_map_flatten_inv l Hi) as [Hn Ho]; [destruct l; [discriminate Hl | discriminate]|].
     unfold anys_ok in Ho. cbn [dsl_inv]. destruct (flat_map flatten1 l); [contradiction|]. exact Ho.
   - unfold any_call, dE. destruct (all_schemas [a; b]) as [l|] eqn:Ea; [|discriminate].
-    destruct (is_some ts); [discriminate|]. intros E; inversion E; subst; clear E.
+    destruct ts as [t0|]; cbn [is_some is_none negb]; [discriminate|]. intros E; inversion E; subst; clear E.
     destruct (all_schemas_inv [a; b] l) as [Hi Hl]; auto.
     destruct (flat_map_flatten_inv l Hi) as [Hn Ho]; [destruct l; [discriminate Hl | discriminate]|].
     unfold anys_ok in Ho. cbn [dsl_inv]. destruct (flat_map flatten1 l); [contradiction|]. exact Ho.
   - unfold any_call, dE. destruct (all_schemas (a :: b :: c :: r)) as [l|] eqn:Ea; [|discriminate].
-    destruct (is_some ts); [discriminate|]. intros E; inversion E; subst; clear E.
+    destruct ts as [t0|]; cbn [is_some is_none negb]; [discriminate|]. intros E; inversion E; subst; clear E.
     destruct (all_schemas_inv (a :: b :: c :: r) l) as [Hi Hl]; auto.
     destruct (flat_map_flatten_inv l Hi) as [Hn Ho]; [destruct l; [discriminate Hl | discriminate]|].
     unfold anys_ok in Ho. cbn [dsl_inv]. destruct (flat_map flatten1 l); [contradiction|]. exact Ho.
+Qed.
+
+(* ------------------------------------------------------------------------------------ *)
+(* self-consistency: a schema that carries a fixed value accepts it                      *)
+(* ------------------------------------------------------------------------------------ *)
+Lemma eqb_refl_not_nan f : is_nan f = false -> PrimFloat.eqb f f = true.
+Proof.
+  unfold is_nan, view. rewrite FloatAxioms.eqb_spec. unfold SFeqb, SFcompare.
+  destruct (Prim2SF f) as [s|s| |s m e]; try discriminate; intros _.
+  - reflexivity.
+  - destruct s; reflexivity.
+  - rewrite Z.compare_refl. destruct s; rewrite Pos.compare_cont_refl; reflexivity.
+Qed.
+
+Fixpoint fixed_elems (l : list (option schema)) : option (list value) :=
+  match l with
+  | [] => Some []
+  | Some e :: r =>
+      match fixed e, fixed_elems r with
+      | Some v, Some vs => Some (v :: vs)
+      | _, _ => None end
+  | None :: _ => None
+  end.
+
+Lemma fixed_list es len mnl mxl :
+  fixed (SList (Some es) None len mnl mxl) =
+  match fixed_elems es with Some vs => Some (VList vs) | None => None end.
+Proof.
+  reflexivity.
+Qed.
+
+Lemma fixed_elems_some es vs :
+  fixed_elems es = Some vs ->
+  exists ss, es = map Some ss /\ Forall2 (fun s v => fixed s = Some v) ss vs.
+Proof.
+  revert vs. induction es as [|[e|] r IH]; intros vs; cbn [fixed_elems].
+  - intros E. inversion E. exists []. split; [reflexivity | constructor].
+  - destruct (fixed e) as [v|] eqn:Ef; [|discriminate].
+    destruct (fixed_elems r) as [vs'|] eqn:Er; [|discriminate].
+    intros E. inversion E. subst. destruct (IH vs' eq_refl) as (ss & Hs & HF).
+    exists (e :: ss). split; [cbn [map]; congruence | constructor; assumption].
+  - discriminate.
+Qed.
+
+Lemma first_ell_map_some {A} (ss : list A) : first_ell (map Some ss) = false.
+Proof. destruct ss; reflexivity. Qed.
+Lemma last_ell_map_some {A} (ss : list A) : last_ell (map Some ss) = false.
+Proof.
+  unfold last_ell. rewrite <- map_rev. destruct (rev ss); reflexivity.
+Qed.
+Lemma classify_map_some {A} (ss : list A) : classify (map Some ss) = FExact.
+Proof.
+  unfold classify. rewrite first_ell_map_some, last_ell_map_some, !andb_false_r. reflexivity.
+Qed.
+Lemma strip_map_some {A} (ss : list A) : strip (map Some ss) = ss.
+Proof. unfold strip. induction ss as [|s r IH]; cbn; [reflexivity|]. f_equal. exact IH. Qed.
+
+Lemma velems_fixed (ss : list schema) (vs : list value) :
+  Forall2 (fun s v => forall p, validate Plain s p v = []) ss vs ->
+  forall pre p, velems (map (validate Plain) ss) p (pre ++ vs) (length pre) = [].
+Proof.
+  induction 1 as [|s v ss vs Hsv HF IH]; intros pre p; cbn [map velems]; [reflexivity|].
+  rewrite nth_error_app2 by lia. rewrite Nat.sub_diag. cbn [nth_error].
+  rewrite Hsv. cbn [app].
+  specialize (IH (pre ++ [v]) p). rewrite <- app_assoc in IH. cbn [app] in IH.
+  rewrite app_length in IH. cbn [length] in IH. rewrite Nat.add_1_r in IH. exact IH.
+Qed.
+
+Lemma pat_search_modelled pt x : pat_search pt x = true -> searchb (snd pt) x = Some true.
+Proof. unfold pat_search. destruct (searchb (snd pt) x) as [[]|]; auto; discriminate. Qed.
+
+Lemma searchb_some_modelled p x b : searchb p x = Some b -> re_modelled p = true.
+Proof. unfold searchb, re_modelled. destruct (search_rx p); [reflexivity | discriminate]. Qed.
+
+Lemma py_eqb_refl_date v : isinst TDate v = true -> py_eqb v v = true.
+Proof.
+  destruct v; try discriminate; intros _; cbn [py_eqb].
+  - rewrite Bool.eqb_reflx, Z.eqb_refl. reflexivity.
+  - apply Z.eqb_refl.
+Qed.
+
+Ltac zb :=
+  repeat match goal with
+         | H : (_ <? _) = false |- _ => apply Z.ltb_ge in H
+         | H : (_ =? _) = true |- _ => apply Z.eqb_eq in H
+         end.
+
+Definition self_ok (s : schema) : Prop :=
+  dsl_inv s = true -> forall v, fixed s = Some v -> value_no_nan v = true ->
+  (forall p, validate Plain s p v = []) /\ conforms s v.
+
+Lemma fixed_self_lemma : forall s, self_ok s.
+Proof.
+  induction s as [ | val | val mn mx | val mn mx pr | val len mnl mxl al sub pat
+                 | es ty len mnl mxl IHes IHty | ks IHks | ts IHts
+                 | val | val | val | val | nm t IHt | t IHt ] using schema_ind';
+    unfold self_ok; intros Hinv v Hfix Hnn.
+  - (* none *)
+    cbn [fixed] in Hfix. inversion Hfix. subst. split; [intros p; reflexivity | reflexivity].
+  - (* bool *)
+    destruct val as [b|]; [|discriminate]. cbn [fixed] in Hfix. inversion Hfix. subst.
+    assert (C : conforms (SBool (Some b)) (VBool b)) by (exists b; split; reflexivity).
+    split; [intros p; apply (v_bool_nil (Some b) p); exact C | exact C].
+  - (* int *)
+    destruct val as [i|]; [|discriminate]. cbn [fixed] in Hfix. inversion Hfix. subst.
+    cbn [dsl_inv opt_all] in Hinv. bdestr.
+    assert (C : conforms (SInt (Some i) mn mx) (of_intv i)).
+    { exists (iz i). split; [destruct i as [z|[]]; reflexivity|]. split; [reflexivity|]. split.
+      - destruct mn as [m|]; cbn [opt_holds opt_all] in *; auto. apply negb_true_iff in H. zb. lia.
+      - destruct mx as [m|]; cbn [opt_holds opt_all] in *; auto. apply negb_true_iff in H0. zb. lia. }
+    split; [intros p; apply (v_int_nil (Some i) mn mx p); exact C | exact C].
+  - (* float *)
+    destruct val as [f|]; [|discriminate]. cbn [fixed] in Hfix. inversion Hfix. subst.
+    cbn [value_no_nan] in Hnn. apply negb_true_iff in Hnn.
+    cbn [dsl_inv opt_all] in Hinv. bdestr.
+    assert (C : conforms (SFloat (Some f) mn mx pr) (VFloat f)).
+    { exists f. split; [reflexivity|]. split.
+      - cbn [opt_holds]. apply eqb_true_value_ok. apply eqb_refl_not_nan. exact Hnn.
+      - split.
+        + destruct mn as [m|]; cbn [opt_holds opt_all] in *; auto. apply negb_true_iff in H. exact H.
+        + destruct mx as [m|]; cbn [opt_holds opt_all] in *; auto. apply negb_true_iff in H1. exact H1. }
+    split; [intros p; apply (v_float_nil (Some f) mn mx pr p); exact C | exact C].
+  - (* str *)
+    destruct val as [x|]; [|discriminate]. cbn [fixed] in Hfix. inversion Hfix. subst.
+    cbn [dsl_inv opt_all] in Hinv. bdestr.
+    assert (C : conforms (SStr (Some x) len mnl mxl al sub pat) (VStr x)).
+    { exists x. split; [reflexivity|]. split; [reflexivity|]. split.
+      - destruct pat as [pt|]; cbn [opt_holds opt_all] in *; auto. apply pat_search_modelled. assumption.
+      - split.
+        + unfold len_ok. repeat split.
+          * destruct len as [k|]; cbn [opt_holds opt_all] in *; auto. apply Z.eqb_eq. assumption.
+          * destruct mnl as [k|]; cbn [opt_holds opt_all] in *; auto. bdestr. zb. lia.
+          * destruct mxl as [k|]; cbn [opt_holds opt_all] in *; auto. bdestr. zb. lia.
+        + split.
+          * destruct sub as [t|]; cbn [opt_holds opt_all] in *; auto.
+          * destruct al as [a|]; cbn [opt_holds opt_all] in *; auto. apply forallb_Nmem. assumption. }
+    split; [|exact C]. intros p. apply (v_str_nil (Some x) len mnl mxl al sub pat p); [|exact C].
+    destruct pat as [[src tree]|]; cbn [pat_ok opt_all] in *; [|reflexivity].
+    eapply searchb_some_modelled. apply (pat_search_modelled (src, tree)). eassumption.
+  - (* list *)
+    destruct es as [es'|]; [|discriminate]. destruct ty as [t|]; [discriminate|].
+    rewrite fixed_list in Hfix. destruct (fixed_elems es') as [vs|] eqn:Ef; [|discriminate].
+    inversion Hfix. subst v. clear Hfix.
+    destruct (fixed_elems_some _ _ Ef) as (ss & -> & HF).
+    specialize (IHes (map Some ss) eq_refl).
+    cbn [dsl_inv is_some is_none negb andb] in Hinv. bdestr.
+    match goal with H : forallb (fun x => x) (map _ (map Some ss)) = true |- _ => rename H into Hel end.
+    match goal with H : list_lens_ok _ _ _ _ = true |- _ => rename H into Hlens end.
+    (* every element accepts its own value *)
+    assert (Hall : Forall2 (fun s v => (forall p, validate Plain s p v = []) /\ conforms s v) ss vs).
+    { clear - IHes HF Hel Hnn. cbn [value_no_nan] in Hnn.
+      revert IHes Hel Hnn. induction HF as [|s v ss vs Hsv HF IH]; intros IHes Hel Hnn; constructor.
+      - inversion IHes as [|? ? Hs _]; subst. cbn [map forallb] in Hel, Hnn. bdestr.
+        apply (Hs s eq_refl); auto.
+      - inversion IHes; subst. cbn [map forallb] in Hel, Hnn. bdestr. apply IH; auto. }
+    assert (Hlen : length ss = length vs) by (eapply Forall2_len; exact HF).
+    assert (Hlo : len_ok (zlen vs) len mnl mxl).
+    { assert (Hc : concrete (map Some ss) = length ss)
+        by (unfold concrete; rewrite strip_map_some; reflexivity).
+      assert (Hac : all_concrete (map Some ss) = true)
+        by (unfold all_concrete; rewrite Hc, map_length; apply Nat.eqb_refl).
+      unfold list_lens_ok in Hlens. unfold zlen. rewrite <- Hlen. unfold len_ok.
+      destruct len as [k1|], mnl as [k2|], mxl as [k3|]; cbn [opt_all opt_holds] in *;
+        rewrite ?Hc, ?Hac in Hlens; bdestr; zb; repeat split; auto; lia. }
+    split.
+    + intros p. cbn [validate].
+      rewrite (proj2 (check_len_first_nil p (VList vs) (zlen vs) len mnl mxl) Hlo).
+      rewrite map_map. cbn beta iota.
+      change (map (fun x : schema => Some (validate Plain x)) ss)
+        with (map (fun x => Some (validate Plain x)) ss).
+      rewrite <- (map_map (validate Plain) Some).
+      unfold list_logic. rewrite classify_map_some. unfold middle. rewrite classify_map_some.
+      rewrite strip_map_some, !map_length.
+      assert (Hv : Forall2 (fun s v => forall p, validate Plain s p v = []) ss vs).
+      { clear - Hall. induction Hall; constructor; tauto. }
+      pose proof (velems_fixed ss vs Hv [] p) as Hve. cbn [app length] in Hve. rewrite Hve.
+      cbn [app]. apply extras_nil. lia.
+    + cbn [conforms]. exists vs. split; [reflexivity|]. split; [exact Hlo|].
+      rewrite map_map. cbn beta iota.
+      rewrite <- (map_map (fun s => conforms s) Some).
+      unfold list_spec. rewrite classify_map_some. unfold middle. rewrite classify_map_some.
+      rewrite strip_map_some.
+      clear - Hall. induction Hall; cbn [map]; constructor; tauto.
+  - destruct ks; discriminate.
+  - destruct ts; discriminate.
+  - (* bytes *)
+    destruct val as [b|]; [|discriminate]. cbn [fixed] in Hfix. inversion Hfix. subst.
+    assert (C : conforms (SBytes (Some b)) (VBytes b)) by (exists b; split; reflexivity).
+    split; [intros p; apply (v_bytes_nil (Some b) p); exact C | exact C].
+  - (* uuid *)
+    destruct val as [n|]; [|discriminate]. cbn [fixed] in Hfix. inversion Hfix. subst.
+    cbn [dsl_inv opt_all] in Hinv.
+    assert (C : conforms (SUuid (Some n)) (VUuid n)).
+    { exists n. split; [reflexivity|]. split; [apply uuid_is_v4_iff; exact Hinv | reflexivity]. }
+    split; [intros p; apply (v_uuid_nil (Some n) p); exact C | exact C].
+  - (* datetime *)
+    destruct val as [[aw us]|]; [|discriminate]. cbn [fixed] in Hfix. inversion Hfix. subst.
+    assert (C : conforms (SDatetime (Some (aw, us))) (VDatetime aw us)).
+    { exists aw, us. split; reflexivity. }
+    split; [intros p; apply (v_datetime_nil (Some (aw, us)) p); exact C | exact C].
+  - (* date *)
+    destruct val as [d|]; [|discriminate]. cbn [fixed] in Hfix. inversion Hfix. subst.
+    cbn [dsl_inv opt_all] in Hinv.
+    assert (C : conforms (SDate (Some v)) v).
+    { split; [exact Hinv|]. cbn [opt_holds]. apply py_eqb_refl_date. exact Hinv. }
+    split; [intros p; apply (v_date_nil (Some v) p); exact C | exact C].
+  - discriminate.
+  - discriminate.
+Qed.
+
+Lemma validate_nil_verdict s v : (forall p, validate Plain s p v = []) -> verdict s v = true.
+Proof. intros H. unfold verdict. rewrite H. reflexivity. Qed.
+
+Lemma fixed_conforms_lemma s v :
+  dsl_inv s = true -> fixed s = Some v -> value_no_nan v = true ->
+  verdict s v = true /\ conforms s v.
+Proof.
+  intros Hi Hf Hn. destruct (fixed_self_lemma s Hi v Hf Hn) as [Hv Hc].
+  split; [apply validate_nil_verdict; exact Hv | exact Hc].
+Qed.
+
+Lemma decl_fixed_conforms_lemma m s args s' :
+  dsl_inv s = true -> args_inv args = true -> decl m s args = Ok s' ->
+  dsl_inv s' = true /\
+  forall v, fixed s' = Some v -> value_no_nan v = true -> verdict s' v = true /\ conforms s' v.
+Proof.
+  intros Hi Ha Hd. pose proof (decl_inv_lemma m s args s' Hi Ha Hd) as Hi'.
+  split; [exact Hi'|]. intros v Hf Hn. apply fixed_conforms_lemma; assumption.
+Qed.
+
+(* chains *)
+Lemma run_inv_lemma ops : forall s s',
+  dsl_inv s = true -> Forall (fun o : op => args_inv (snd o) = true) ops ->
+  run ops s = Ok s' -> dsl_inv s' = true.
+Proof.
+  induction ops as [|[m a] r IH]; intros s s' Hi Ha; cbn [run].
+  - intros E. inversion E. subst. exact Hi.
+  - inversion Ha as [|? ? Ha1 Har]; subst. cbn [snd] in Ha1.
+    destruct (decl m s a) as [s1| |] eqn:E; cbn [bind]; try discriminate.
+    apply IH; [|exact Har]. eapply decl_inv_lemma; eassumption.
+Qed.
+
+Lemma run_only_declerr_lemma ops : forall s,
+  Forall (fun o : op => arity_ok (kind_of s) (fst o) (snd o) = true) ops ->
+  forall e, run ops s <> Raise e.
+Proof.
+  induction ops as [|[m a] r IH]; intros s Ha e; cbn [run]; [discriminate|].
+  inversion Ha as [|? ? Ha1 Har]; subst. cbn [fst snd] in Ha1.
+  destruct (decl m s a) as [s1| |] eqn:E; cbn [bind]; try discriminate.
+  - apply IH. rewrite (decl_kind _ _ _ _ E). exact Har.
+  - exfalso. exact (decl_only_declerr_lemma m s a Ha1 e0 E).
 Qed.
